@@ -68,6 +68,31 @@ func genGuards() {
 	}
 	genGuardFile("GuardsNet.lean", net)
 
+	decSite := func(name, file, recv, dataName string) guardSite {
+		return guardSite{Name: name + "_Decode", File: file, Recv: recv, Func: "Decode",
+			Params: []string{"length", "dlen", "n", "r"},
+			Map: ids(map[string]string{"len(" + dataName + ")": "dlen", "hex.EncodedLen(length)": "(length * 2)"}, "length", "n", "r")}
+	}
+	enc := []guardSite{
+		decSite("ascii", "encoding/ascii.go", "asciiEncoder", "data"),
+		{Name: "ascii_Encode", File: "encoding/ascii.go", Recv: "asciiEncoder", Func: "Encode", Params: []string{"r"}, Map: ids(nil, "r")},
+		decSite("binary", "encoding/binary.go", "binaryEncoder", "data"),
+		decSite("bcd", "encoding/bcd.go", "bcdEncoder", "src"),
+		decSite("lbcd", "encoding/lbcd.go", "lBCDEncoder", "src"),
+		decSite("bytesToHex", "encoding/hex.go", "hexToASCIIEncoder", "data"),
+		decSite("hexToBytes", "encoding/hex.go", "asciiToHexEncoder", "data"),
+		decSite("ebcdic", "encoding/ebcdic.go", "ebcdicEncoder", "src"),
+		decSite("ebcdic1047", "encoding/ebcdic1047.go", "ebcdic1047Encoder", "data"),
+	}
+	genGuardFile("GuardsEnc.lean", enc)
+
+	comp := []guardSite{
+		{Name: "composite_Unpack", File: "field/composite.go", Recv: "Composite", Func: "Unpack",
+			Params: []string{"dataLen", "offset", "dlen", "read"},
+			Map:    ids(map[string]string{"len(data)": "dlen"}, "dataLen", "offset", "read")},
+	}
+	genGuardFile("GuardsComposite.lean", comp)
+
 	bm := map[string]string{"f.spec.DisableAutoExpand": "dae", "len(f.data)": "dataLen", "f.bitmapLength": "blockLen"}
 	bitmap := []guardSite{
 		{Name: "bitmap_IsBitmapPresenceBit", File: "field/bitmap.go", Recv: "Bitmap", Func: "IsBitmapPresenceBit",
